@@ -16,6 +16,8 @@ class Scope(object):
         self.node = node
         self.parent = parent
         self.bound = set()
+        self.strong = set()       # bound by something other than an augmented assignment / del
+        self.weak = set()         # bound by `x += ...` or `del x`
         self.globals = set()
         self.nonlocals = set()
         self.reads = []           # (ast.Name, ) read directly in this scope
@@ -45,8 +47,24 @@ class Builder(ast.NodeVisitor):
             self.visit(st)
 
     # --- helpers
-    def bind(self, name, scope=None):
-        (scope or self.cur).bound.add(name)
+    def bind(self, name, scope=None, weak=False):
+        s = scope or self.cur
+        s.bound.add(name)
+        (s.weak if weak else s.strong).add(name)
+
+    def visit_AugAssign(self, node):
+        self.visit(node.value)
+        if isinstance(node.target, ast.Name):
+            self.bind(node.target.id, weak=True)
+        else:
+            self.visit_targets_reads(node.target)
+
+    def visit_Delete(self, node):
+        for t in node.targets:
+            if isinstance(t, ast.Name):
+                self.bind(t.id, weak=True)
+            else:
+                self.visit_targets_reads(t)
 
     def binding_scope_for_walrus(self):
         s = self.cur
@@ -105,9 +123,11 @@ class Builder(ast.NodeVisitor):
     def visit_arguments(self, args, into):
         for a in getattr(args, 'posonlyargs', []) + args.args + args.kwonlyargs:
             into.bound.add(a.arg)
+            into.strong.add(a.arg)
         for a in (args.vararg, args.kwarg):
             if a:
                 into.bound.add(a.arg)
+                into.strong.add(a.arg)
 
     def outer_exprs_of_args(self, args):
         out = list(args.defaults) + [d for d in args.kw_defaults if d is not None]
@@ -159,6 +179,7 @@ class Builder(ast.NodeVisitor):
                 self.visit(g.iter)
             for n in target_names(g.target, []):
                 s.bound.add(n)
+                s.strong.add(n)
             self.visit_targets_reads(g.target)
             for c in g.ifs:
                 self.visit(c)
